@@ -388,7 +388,15 @@ class NetRun:
             world.settle()
             self.health()
         self._build()
-        world.start(persistence=bool(self.persist))
+        late = self.persist and self.cfg.get("late_persistence") and self.lifetime == 0
+        world.start(persistence=bool(self.persist) and not late)
+        if late:
+            # the application brings the link up first and enables persistence a moment later: what arrives in between is
+            # part of what the gateway holds (and has to reach the file like everything else)
+            self.probe("start_persistence_after_start")
+            for text in self.cfg["late_persistence"]:
+                self.op_line(text)
+            world.start_persistence_only()
         self.out_lines()
         self.new_callbacks()
         self.health()
